@@ -420,7 +420,7 @@ func wrapTweaks(r *vh.RNG, nHash uint32) []uint32 {
 	out := []uint32{0, 1, 0x7fffffff, 0x80000000, 0x80000001, 0xfffffffe, 0xffffffff, r.U32()}
 	if nHash > 0 {
 		i := uint32(r.Intn(int(nHash)))
-		p := i * 0xFBA4C795 // wrapped product
+		p := i * 0xFBA4C795               // wrapped product
 		out = append(out, -p, -p-1, -p+1) // sum = 0 (just wrapped), 2^32-1 (just not), 1
 	}
 	return out
@@ -730,6 +730,14 @@ func main() {
 		murmurCase(r.U32(), r.Bytes(n), corrAll && i < cfg.Scale(150, 600))
 	}
 
+	// items at and beyond the 8/16/20-bit length boundaries: the length is folded into the finaliser and
+	// drives the block count (monitors only: a 64 KiB list literal is too slow to parse in Coq; the model's
+	// answer for such items was compared by hand, see design/notes_C09.md "Review round 2")
+	for _, n := range []int{255, 256, 257, 258, 259, 65535, 65536, 65537, 65538, 65539, 131071, 131073, 1<<20 + 3} {
+		murmurCase(r.U32(), r.Bytes(n), false)
+		rep.Count("murmur:long", fmt.Sprint(n), true)
+	}
+
 	// --- bit indices: sizes x wrapping tweaks x hash numbers
 	r = rng.Fork("bitidx")
 	for _, sz := range sizes {
@@ -773,6 +781,13 @@ func main() {
 			corr := corrAll && (sz != 36000 || nh%10 == 0 || nh == 49) && (cfg.Thorough() || int(nh)%3 == sz%3 || nh <= 1 || nh >= 49)
 			runHistory(h, corr, "grid")
 		}
+	}
+	// long items (script pushes go up to 520 bytes; Add accepts anything): 64 KiB and more, through Add/Matches
+	for _, n := range []int{521, 65535, 65536, 65537, 70000} {
+		big := vh.Hex(r.Bytes(n))
+		h := history{Init: recOf(make([]byte, vh.Pick(r, []int{3, 64, 36000})), uint32(1+r.Intn(50)), r.U32(), 0),
+			Ops: []opRec{{Op: "add", Data: big}, {Op: "matches", Data: big}, {Op: "matches", Data: big[:len(big)-2]}}}
+		runHistory(h, false, "longitem")
 	}
 	// random histories with Reload/Unload, all starting states
 	nh := cfg.Scale(400, 6000)
